@@ -280,10 +280,17 @@ type World struct {
 	sizes  types.Sizes
 	notes  map[string]int // abstraction rows hit
 	consts map[string]constContent
+	memo   map[string]memoEntry // lazily created initial contents, shared by all states of a run
+}
+
+type memoEntry struct {
+	v       Val
+	assumes []string
+	arrs    map[*ArrObj]ArrState
 }
 
 func newWorld() *World {
-	w := &World{st: newSymtab(), sizes: types.SizesFor("gc", "amd64"), notes: map[string]int{}, consts: map[string]constContent{}}
+	w := &World{st: newSymtab(), sizes: types.SizesFor("gc", "amd64"), notes: map[string]int{}, consts: map[string]constContent{}, memo: map[string]memoEntry{}}
 	w.st.declare("nil_iface", nil, sortU)
 	w.st.declare("u_bytes", []string{sortU, bvSort(64), bvSort(64)}, sortU)
 	w.st.declare("u_slice", []string{sortU, bvSort(64), bvSort(64)}, sortU)
@@ -585,10 +592,34 @@ func (w *World) objVal(s *State, o *Obj) Val {
 	if v, ok := s.mem[o]; ok {
 		return v
 	}
-	orig := OrigMem
-	v := w.fresh(s, o.Typ, o.Name, orig)
+	// The initial content of an object is created once per run and shared by
+	// every state in which the object has not been written or havocked, so that
+	// a state and its clones (pre-states of calls) agree on it.
+	key := fmt.Sprintf("obj%d", o.ID)
+	v := w.memoized(s, key, func(tmp *State) Val { return w.fresh(tmp, o.Typ, o.Name, OrigMem) })
 	s.mem[o] = v
 	return v
+}
+
+// memoized creates (once) or re-uses a lazily initialised value; the
+// assumptions and backing arrays created with it are replayed into s.
+func (w *World) memoized(s *State, key string, mk func(tmp *State) Val) Val {
+	me, ok := w.memo[key]
+	if !ok {
+		tmp := newState()
+		v := mk(tmp)
+		me = memoEntry{v: v, assumes: tmp.pc, arrs: tmp.arrs}
+		w.memo[key] = me
+	}
+	for _, a := range me.assumes {
+		s.assume(a)
+	}
+	for a, as := range me.arrs {
+		if _, has := s.arrs[a]; !has {
+			s.arrs[a] = as
+		}
+	}
+	return me.v
 }
 
 // elemVal returns the in-memory value of a composite array element.
@@ -601,7 +632,7 @@ func (w *World) elemVal(s *State, a *ArrObj, idx string) Val {
 	if _, zero := as.Elems["*zero*"]; zero {
 		v = w.toMem(s, w.zero(s, a.Elem), nil)
 	} else if as.Base != "" {
-		v = w.freshElem(s, as.Base, a.Elem, idx, "")
+		v = w.memoized(s, "elem|"+as.Base+"|"+idx, func(tmp *State) Val { return w.freshElem(tmp, as.Base, a.Elem, idx, "") })
 	} else {
 		v = w.fresh(s, a.Elem, fmt.Sprintf("%s_el", a.Sym), OrigMem)
 	}
@@ -798,7 +829,10 @@ func (w *World) havocReach(s *State, v Val, seen map[interface{}]bool) {
 		seen[x.Root] = true
 		cur, ok := s.mem[x.Root]
 		if !ok {
-			return // never materialised: already arbitrary
+			// never read in this state: give it fresh contents now (the shared
+			// initial contents no longer apply)
+			s.mem[x.Root] = w.fresh(s, x.Root.Typ, x.Root.Name, OrigMem)
+			return
 		}
 		if len(x.Path) == 0 {
 			w.reachInside(s, cur, seen)
